@@ -42,7 +42,12 @@ RULE = ('template trees over Table/Point/Function/Constant atoms, AtomicMultiCha
         'channels x removed names; D11 a MappingPT that maps an inner channel to None; D12 inputs inside the class of the '
         'known finding (zero factor hides a missing name in a FunctionPT / time dependent value) x own constraint true / '
         'false / on the missing name, negative window, violated sibling before / after, mappings, loops, repetitions, '
-        'dropped channels.  Values are handed over as int / float / numpy scalar / string / DictScope.  '
+        'dropped channels, a plain read of the missing name in front of / behind the vanishing expression; D13 a MappingPT '
+        'directly around a constraint-free MappingPT (merged by the constructor; object and tuple form, in SequencePT / '
+        'AtomicMultiChannelPT, below a third mapping) whose outer mapping exchanges, shifts (both directions), rotates or '
+        'self-references the names it maps, inner expressions combining those names asymmetrically, leaf constraint '
+        '== / < / > the composed value, constraint on the outer node, every declared name removed.  '
+        'Values are handed over as int / float / numpy scalar / string / DictScope.  '
         'Families: exact declared '
         'names, +extra names (second assignment; the two programs are compared by what they play), one declared name '
         'removed, one constraint violated, perturbed values, channels dropped (all / partial), zero factor + removed '
@@ -1742,6 +1747,7 @@ def directed_known_class_cases():
     for mk, mname in ((fz, 'func'), (tz, 'partd')):
         chs = sorted(py_channels(mk()))
         bad_sib = lambda: sib(gt('p2', 3), chs)
+        read_sib = lambda: {'k': 'table', 'ch': list(chs), 'reads': [V('p1'), C(1)] * len(chs), 'dur': C(2), 'cs': [], 'ms': []}
         good_sib = lambda: sib(lt('p2', 3), chs)
         trees = [
             ('plain', mk()),
@@ -1752,6 +1758,11 @@ def directed_known_class_cases():
             ('sib_bad_after', _seq(mk(), bad_sib())),
             ('sib_bad_before', _seq(bad_sib(), mk())),
             ('sib_good', _seq(good_sib(), mk(), good_sib())),
+            # round 6: the missing name is needed by a plain read in front of / behind the vanishing expression.  In
+            # front: the exact guard (guard_C03_function_zero_tight) is true, the case is outside the finding's class
+            ('sib_missing_before', _seq(read_sib(), mk())),
+            ('sib_missing_after', _seq(mk(), read_sib())),
+            ('seq_window_missing', _seq(mk(), ms=[[C(0), ['*', V('p1'), V('p1')]]])),
             ('seq_cs_false', _seq(mk(), cs=[gt('p2', 3)])),
             ('rep', _rep(mk(), V('p3'))),
             ('rep_cs_false', dict(_rep(mk(), V('p3')), cs=[gt('p2', 3)])),
@@ -2330,7 +2341,7 @@ def _candidate(obs):
 def known_holds(case, obs):
     """Corr.check_known evaluated in Coq: the implementation does exactly what the faithful model (which exhibits the
     finding) does, and every clause of check_spec holds except clause (d) for assignments on which
-    guard_C03_function_zero is false, a needed value is missing and a result was returned.  All candidates seen so far
+    guard_C03_function_zero_tight (round 6: the exact guard) is false, a needed value is missing and a result was returned.  All candidates seen so far
     are evaluated in one batch"""
     key = vlib.canonical_hash([case, obs])
     if key not in _GUARD:
@@ -2349,7 +2360,8 @@ def known_holds(case, obs):
 
 def classify(case, obs):
     """known finding: the implementation returned (program / None) although a declared name is not supplied, the input
-    lies in the class the theorems exclude (the Coq guard guard_C03_function_zero is false: a reached function atom
+    lies in the class the theorems exclude (the Coq guard guard_C03_function_zero_tight is false: the first failing
+    obligation in instantiation order belongs to a function atom
     whose expression cannot be evaluated but whose symbolic residual is closed), the faithful model predicts exactly
     this observation (check_corr) and nothing else is wrong with the case (round 5: the guard alone would file any
     other violation on such an input under the finding, and the check skips check_corr for a classified case)"""
@@ -2486,8 +2498,11 @@ MANIFEST = {
                   '(never a missing-parameter error); (b) assignments agreeing on the declared names give the same '
                   'outcome kind (program / nothing / which error), complete or not (C03_irrelevant); (c) complete '
                   'assignment: accepted iff every obligation holds, else ParameterConstraintViolation when the numbers '
-                  'are well formed; (c only-if, d) for any assignment under the executable guard '
-                  'guard_C03_function_zero (C03_missing_tight: or whenever the ideal verdict is not "missing value"); '
+                  'are well formed; (c only-if, d) and the refinement for any assignment under the executable guard '
+                  'guard_C03_function_zero_tight, which is exact (round 6, C03_guard_exact: false iff the obligation that '
+                  'decides the ideal verdict is a function expression whose missing name vanishes; '
+                  'C03_refines_exact_guard, C03_missing_exact_guard, C03_constraints_sound_exact_guard; the round-2 '
+                  'guard over all obligations implies it); '
                   'C03_missing_refuted exhibits the known finding in the model.  Round 5: the helpers shared by model and '
                   'specification (Python range, channel renaming / dropping, kept values) are characterised by theorems of '
                   'their own.  Tested, not proved: that the real code behaves like the model (correspondence check: '
@@ -2495,7 +2510,8 @@ MANIFEST = {
                   'own by model and specification) on a deterministic directed stream (name coincidences D1-D4; '
                   'frame-pushing nodes between a rebinding mapping and the reader D5; hash-colliding values in histories '
                   'and loop ranges H1/H2; aliased objects D7; zero durations D8; ParallelChannelPT below atomic composites '
-                  'D9; time dependent values D10; channels mapped to None D11; the class of the known finding D12) plus '
+                  'D9; time dependent values D10; channels mapped to None D11; the class of the known finding D12; '
+                  'nested mappings whose outer mapping exchanges / shifts / rotates the names it maps D13) plus '
                   'generated trees x assignment families x value types (thorough: exhaustive small scope, full directed '
                   'products); check_spec evaluates the clauses from the specification (Spec.v) on the user-level tree and '
                   'the observed parameter_names, clause (b) including equality of the instantiated programs (sampled).  '
@@ -2504,10 +2520,11 @@ MANIFEST = {
                   '(Corr.check_known).',
     'level_note': 'Known finding (FunctionPT / time dependent ParallelChannelPT value: a missing parameter multiplied by a '
                   'supplied 0 vanishes symbolically) is reproduced by the model; clauses (c only-if)/(d) and the '
-                  'refinement are proved under a guard that excludes such inputs; the guard looks at all obligations in '
-                  'instantiation order and therefore also excludes inputs where an EARLIER needed value is missing and '
-                  'the code never gets to the function atom (Proofs10.ex_guard_overapprox; harmless there, the unguarded '
-                  'refinement C03_refines_unguarded still applies).  Six defects fixed in /repo '
+                  'refinement are proved under a guard that excludes exactly such inputs (round 6: only the obligations '
+                  'up to the first failing one count; the over-approximation of the round-2 guard, '
+                  'Proofs10.ex_guard_overapprox, is covered now: Proofs11.ex_tight_closes_overapprox; the classification '
+                  'of a rejected case as the known finding, Corr.finding_form, uses the exact guard).  C03_violation_justified '
+                  'is still stated with the round-2 guard.  Six defects fixed in /repo '
                   '(nested MappingPT dropped inner constraints; ArithmeticAtomicPT did not declare its measurement '
                   'parameters; a parameter called t broke ArithmeticPT scalars / time dependent ParallelChannelPT '
                   'values; two eager scope copies hiding t changed the result of incomplete assignments (ArithmeticPT, '
